@@ -166,6 +166,10 @@ def run(repo, chk):
                 fn = p
                 while fn is not None and not isinstance(fn, ast.FunctionDef):
                     fn = parent(fn)
+                # the decision must be taken where the instructions are emitted: a read inside a plain helper
+                # (whose RESULT then steers other code, e.g. is_safe) lets the flag leak into non-check code
+                if ok and fn is not None and fn.name not in gf.gen_methods and fn.name != 'gen_func':
+                    ok = False
                 chk.expect(ok, 'C15.U3', f'{fn.name if fn else "?"}::read of self.{n.attr}',
                            'the flag may only be used as an `if` condition (or to derive needs_return_protection)',
                            rel, n.lineno)
